@@ -291,6 +291,25 @@ class ResolveStream(runner.Stream):
 
     def witnesses(self):
         out = []
+        # the exporting module's name ends in `Module` / `_Module` (trimmed by the parser in the header AND after
+        # FROM): an import by name still finds it, in every load order
+        for lib_name in ("SharedLimitsModule", "Shared_Module", "LimitsModule"):
+            lib = f"{lib_name} DEFINITIONS AUTOMATIC TAGS ::= BEGIN\nlowest INTEGER ::= 3\nhighest INTEGER ::= 9\nEND"
+            a = (f"Gauge DEFINITIONS AUTOMATIC TAGS ::= BEGIN\nIMPORTS lowest, highest FROM {lib_name};\nLevel ::= INTEGER (lowest..highest)\n"
+                 "Blob ::= OCTET STRING (SIZE(lowest..highest))\nCfg ::= SEQUENCE { d INTEGER DEFAULT highest }\nEND")
+            b = (f"Gauge DEFINITIONS AUTOMATIC TAGS ::= BEGIN\nIMPORTS lowest, highest FROM {lib_name};\nLevel ::= INTEGER (3..9)\n"
+                 "Blob ::= OCTET STRING (SIZE(3..9))\nCfg ::= SEQUENCE { d INTEGER DEFAULT 9 }\nEND")
+            out.append(f"resolve subst {hx(a)},{hx(lib)} {hx(b)},{hx(lib)} regress:module_suffix_import:eq")
+            out.append(f"resolve subst {hx(lib)},{hx(a)} {hx(lib)},{hx(b)} regress:module_suffix_import:eq")
+        # a value re-exported through intermediate modules while the importer has a single FROM clause
+        base = "Base DEFINITIONS AUTOMATIC TAGS ::= BEGIN\nfirst-id INTEGER ::= 5\nEND"
+        mid = "Middle DEFINITIONS AUTOMATIC TAGS ::= BEGIN\nIMPORTS first-id FROM Base;\nEND"
+        mid2 = "Middle2 DEFINITIONS AUTOMATIC TAGS ::= BEGIN\nIMPORTS first-id FROM Middle;\nEND"
+        top = "Top DEFINITIONS AUTOMATIC TAGS ::= BEGIN\nIMPORTS first-id FROM Middle2;\nA ::= INTEGER (0..first-id)\nB ::= OCTET STRING (SIZE(first-id))\nEND"
+        topl = "Top DEFINITIONS AUTOMATIC TAGS ::= BEGIN\nIMPORTS first-id FROM Middle2;\nA ::= INTEGER (0..5)\nB ::= OCTET STRING (SIZE(5))\nEND"
+        for order in ((0, 1, 2, 3), (3, 2, 1, 0), (2, 0, 3, 1)):
+            ms, ml = [base, mid, mid2, top], [base, mid, mid2, topl]
+            out.append("resolve subst " + ",".join(hx(ms[i]) for i in order) + " " + ",".join(hx(ml[i]) for i in order) + " regress:reexport_chain:eq")
         # two value assignments whose names differ only in the case of a letter: each use resolves to its own
         for n1, n2 in (("maxLen", "maxlen"), ("lowerBound", "lowerbound"), ("aB", "ab")):
             vals = f"{n1} INTEGER ::= 4\n{n2} INTEGER ::= 8"
